@@ -14,7 +14,7 @@ def Inv (st : SkipState) : Prop :=
 instance (st : SkipState) : Decidable (Inv st) := by unfold Inv; infer_instance
 
 /-- Commands that go through the filter or the steps (not directly to the state model). -/
-def Cmd.viaSteps (c : Cmd) : Prop := c.level ≠ .stateModel
+def Cmd.viaSteps (c : Cmd) : Prop := c.level ≠ .stateModel ∧ c.level ≠ .exoModel
 
 instance (c : Cmd) : Decidable c.viaSteps := by unfold Cmd.viaSteps; infer_instance
 
@@ -48,7 +48,8 @@ theorem skipCmd_inv (st : SkipState) (c : Cmd) (hc : c.viaSteps) (h : Inv st) :
   · exact filterSkip_inv st n on h
   · exact predictionSkip_inv st n on h
   · exact correctionSkip_inv st on h
-  · exact absurd rfl hc
+  · exact absurd rfl hc.1
+  · exact absurd rfl hc.2
 
 theorem run_inv (cs : List Cmd) : ∀ (st : SkipState), (∀ c ∈ cs, c.viaSteps) → Inv st → Inv (run st cs) := by
   induction cs with
